@@ -481,6 +481,23 @@ def cache_inval(ctx: Ctx) -> List[Ob]:
         obs.append(ctx.ob("CACHE-INVAL", props, g, f"{g.qualname} memoises in `{a}`: reset where `{fld}` is written in {M.qualname}", node, False,
                           f"{g.qualname} keeps its result in the new attribute `{a}` and computes it from `{fld}`; {M.qualname} writes `{r}.{fld}` "
                           f"(`{norm(node)[:80]}`) without resetting `{r}.{a}`: the memoised value is stale afterwards"))
+    # a memoising decorator on a function that reads object state or the outside world
+    for g in ctx.model.all_funcs():
+        for d_ in g.node.decorator_list:
+            dn = norm(d_.func if isinstance(d_, ast.Call) else d_).split(".")[-1]
+            if dn not in ("lru_cache", "cache", "cached_property"):
+                continue
+            params_ = set(g.param_names())
+            reads_state = [x for x in ast.walk(g.node) if isinstance(x, ast.Attribute) and isinstance(x.ctx, ast.Load) and isinstance(x.value, ast.Name) and x.value.id in params_
+                           and not isinstance(ctx.model.parent_of(x), ast.Call)]
+            world = [x for x in ast.walk(g.node) if isinstance(x, ast.Call) and (
+                (isinstance(x.func, ast.Attribute) and isinstance(x.func.value, ast.Name) and (x.func.value.id in ("os", "time", "random", "shutil") or x.func.value.id in params_))
+                or (isinstance(x.func, ast.Name) and x.func.id in ("open",)))]
+            if reads_state or world:
+                w_ = (reads_state or world)[0]
+                props = family_props(g) or ["C10"]
+                obs.append(ctx.ob("CACHE-INVAL", props, g, f"{g.qualname} is memoised by @{dn}", d_, False,
+                                  f"the decorated function reads mutable state / the outside world (`{norm(w_)[:60]}`): its first answer is repeated after the state changed"))
     cc = ctx.with_extra({"zz_cache_control": _CACHE_CONTROL})
     hit = [x for x in _cache_findings(cc, lambda n: n.startswith("_zz_memo")) if x[0].name == "zz_depth" and x[2].name == "zz_move"]
     if len(hit) != 1:
